@@ -584,12 +584,15 @@ impl<W: WorldSpec> Engine<W> {
                     _ => *nn % (cap as u32 + 2),
                 };
                 let cur_gen = dump.slots.get(position as usize).map(|s| s.1).unwrap_or(1);
-                let generation: u32 = match gen % 6 {
-                    0 => cur_gen,
+                let generation: u32 = match gen % 10 {
+                    0 | 6 => cur_gen,
                     1 => cur_gen.wrapping_add(1).max(1),
                     2 => cur_gen.wrapping_sub(1).max(1),
                     3 => 1,
                     4 => u32::MAX,
+                    7 => 0x8000_0000 | cur_gen,
+                    8 => 0x8000_0000,
+                    9 => 0x7FFF_FFFF,
                     _ => (*nn).max(1),
                 };
                 let id: u8 = match idb % 4 {
@@ -604,7 +607,7 @@ impl<W: WorldSpec> Engine<W> {
                         x
                     }
                 };
-                if pos % 7 == 0 && gen % 6 == 0 && !free.is_empty() {
+                if pos % 7 == 0 && matches!(gen % 10, 0 | 6) && !free.is_empty() {
                     self.stats.inc("forge_free_position_current_generation");
                 }
                 if pos % 7 == 3 {
@@ -619,19 +622,27 @@ impl<W: WorldSpec> Engine<W> {
                 if am.preset || ver > 200 {
                     None
                 } else {
-                    let want_idx = match idx % 4 {
-                        0 => 0usize,
+                    let want_idx = match idx % 8 {
+                        0 | 6 | 7 => 0usize,
                         1 => am.len.saturating_sub(1),
                         2 => am.len,
-                        _ => am.len + 1,
+                        3 => am.len + 1,
+                        4 => am.cap.saturating_sub(1),
+                        _ => am.cap,
+                    };
+                    // a version one off must be refused wherever the index points
+                    let want_ver = match idx % 8 {
+                        6 => ver.saturating_sub(1).max(1),
+                        7 => ver + 1,
+                        _ => ver,
                     };
                     if want_idx > 300 {
                         None
                     } else {
-                        if idx % 4 == 2 {
+                        if idx % 8 == 2 {
                             self.stats.inc("forge_direct_index_eq_len");
                         }
-                        self.scratch_direct(ai, ver, want_idx)
+                        self.scratch_direct(ai, want_ver, want_idx)
                     }
                 }
             }
